@@ -263,6 +263,7 @@ type Exec struct {
 	entry    *Heap
 	rec      *[]frameLoc // when set, store/havocLoc record the locations they write
 	implLockgen bool     // modifies lockstate(m) of a function with a body also covers lockgen(m)
+	localAlias map[string]string // renamed locals: name in the contract -> current name
 	curCall  *ssa.CallCommon // the call whose contract is being applied (for allfields())
 	curNames []string
 	params   map[string]CV
@@ -559,6 +560,19 @@ func (ex *Exec) newTopState() (*State, *CEnv) {
 		fr.regs[p] = t
 		ex.params[p.Name()] = CV{T: t, GoT: p.Type()}
 		ex.assumeTyped(st, t, p.Type())
+	}
+	// names the contract was written against that a later (harmless) rename removed: bound by position
+	ex.localAlias = map[string]string{}
+	if snap, ok := w.sigs[fn.String()]; ok {
+		pa, la := aliasesFor(snap, fn)
+		for old, i := range pa {
+			ex.params[old] = ex.params[fn.Params[i].Name()]
+			w.Note("contract of " + fn.Name() + " names parameter " + old + ", now " + fn.Params[i].Name() + " (bound by position)")
+		}
+		for old, now := range la {
+			ex.localAlias[old] = now
+			w.Note("contract of " + fn.Name() + " names local " + old + ", now " + now + " (bound by position)")
+		}
 	}
 	for _, fv := range fn.FreeVars {
 		t := w.D.Const("fv!"+fn.Name()+"!"+fv.Name(), w.SortOf(fv.Type()))
@@ -1102,7 +1116,11 @@ func (ex *Exec) load(st *State, h *Heap, addr Term, t types.Type) Term {
 		if a != nil && a.Kind == "global" && w.globalsRO[a.G] && !isByteArray(t) {
 			// (a byte-array global is read through its address by callees: keep the one
 			// representation BM[address], or contract and code would speak of different things)
-			return ex.roGlobalVal(a.G)
+			v := ex.roGlobalVal(a.G)
+			if _, isMap := t.Underlying().(*types.Map); isMap && st != nil {
+				ex.assumeTable(st, a.G, v)
+			}
+			return v
 		}
 		n, s := w.CellArray(t)
 		return Select(w.heapGet(h, n, s), addr)
